@@ -2,6 +2,7 @@ package props
 
 import (
 	"fmt"
+	"sort"
 	"testing"
 
 	"pgregory.net/rapid"
@@ -236,6 +237,40 @@ func TestC03(t *testing.T) {
 			}})
 			d = hx.GenDerived(t, base, 2)
 			orders = genOrders(t, d.Exp, "id")
+		case mode <= 6: // input that is already (almost) in the requested order, or in the reverse of it
+			tab := withID(hx.GenTable(t, hx.TableOpt{MinCols: 1, MaxCols: 4, Rows: hx.RowsUpTo(300), AllowDerived: true}))
+			orders = genOrders(t, tab, "id")
+			perm := hx.Iota(tab.N())
+			sort.SliceStable(perm, func(i, j int) bool { return hx.CmpRows(tab, orders, perm[i], perm[j]) < 0 })
+			if rapid.Bool().Draw(t, "descending") {
+				for i, j := 0, len(perm)-1; i < j; i, j = i+1, j-1 {
+					perm[i], perm[j] = perm[j], perm[i]
+				}
+			}
+			perturb := "none"
+			if n := len(perm); n >= 2 {
+				a, b := rapid.IntRange(0, n-1).Draw(t, "pa"), rapid.IntRange(0, n-1).Draw(t, "pb")
+				switch rapid.IntRange(0, 5).Draw(t, "perturb") {
+				case 1:
+					perturb = "last row moved to the front"
+					perm = append([]int{perm[n-1]}, perm[:n-1]...)
+				case 2:
+					perturb = "first row moved to the end"
+					perm = append(append([]int(nil), perm[1:]...), perm[0])
+				case 3:
+					perturb = "two rows swapped"
+					perm[a], perm[b] = perm[b], perm[a]
+				case 4:
+					perturb = "last row swapped with another"
+					perm[a], perm[n-1] = perm[n-1], perm[a]
+				case 5:
+					perturb = "rotated"
+					perm = append(append([]int(nil), perm[a:]...), perm[:a]...)
+				}
+			}
+			d = hx.GenDerived(t, tab.Rows(perm), 0)
+			d.Route = append(d.Route, "presorted input, "+perturb)
+			classes = append(classes, "presorted")
 		default:
 			base := withID(hx.GenTable(t, hx.TableOpt{MinCols: 1, MaxCols: 5, Rows: hx.RowsUpTo(200), AllowDerived: true}))
 			d = hx.GenDerived(t, base, 4)
